@@ -142,6 +142,7 @@ REAL = [("Z1", dict(n=4)), ("Z2", dict(n=4)), ("Z3", dict(n=4)), ("Z4", dict(n=3
         # stream lengths 0 and far beyond the small buffer sizes
         ("Z1", dict(n=0)), ("Z3", dict(n=0)), ("Z5", dict(n=3, m=0)), ("Z6", dict(n=0)), ("Z9", dict(n=0)), ("Z16", dict(n=0)), ("Z7", dict(n=0)),
         ("Z10", dict(n=40, mx=4, buf=16)), ("Z3", dict(n=24, mx=4, buf=8)),
+        ("Z4T", dict(n=3, mx=3)), ("Z4T", dict(n=2, buf=2)),
         ("PC3", dict(nx=2, ny=3, nz=2)), ("PC3", dict(nx=1, ny=2, nz=3, buf=2)), ("PC2S", dict(n=4, buf=1)), ("PC2S", dict(n=7, buf=2)),
         ("FC2", dict(n=2, m=3)), ("FC2", dict(n=3, m=3, buf=2)), ("FC2", dict(n=0, m=2)), ("FCS", dict(n=2, buf=2), dict(minbuf=2)), ("FCS", dict(n=3, buf=4), dict(minbuf=3)),
         # partially completed earlier runs: outputs of later items exist already
@@ -199,6 +200,22 @@ def check_C05(tier):
     def post(chk):
         from .slots import shared_output_scenario
         shared_output_scenario(chk, what="two tasks mapping to the same output file compete for one slot: Run never returned")
+        fanin_close_stress(chk, tier)
+        # a two-port process one of whose streams is EMPTY while the other branch is slow, on a single OS thread (goroutines start late):
+        # Run must still wait for the slow branch
+        inst = zoo.Z5c(n=2, m=0, mx=2); inst["name"] = "Z5cEMPTY"; inst["ctl"] = {"a.sleep": "0.25"}
+        exp = fc.expected(inst)
+        def one(k):
+            return fc.real_runs(inst, [dict(env={"GOMAXPROCS": "1"}, bufsize=2, timeout=30)])[0]
+        nrep = 80 if tier == "thorough" else 40
+        for rr in pmap(one, range(nrep), workers=8):
+            chk.evaluations += 1
+            msgs = [m for prop, m in fc.file_monitor(inst, exp, rr) if prop == "C05"]
+            if rr.timeout or rr.deadlock: msgs.append("workflow did not return")
+            if msgs:
+                chk.violation("empty stream on one port of a two-port process, slow branch on the other (GOMAXPROCS=1): %s" % msgs[0], dict(instance=norm_inst(inst), trace_tail=rr.events[-30:])); break
+        else:
+            chk.nontrivial.add("early-return-stress:%d" % nrep)
     return run_flow_check("C05", tier, {"C05"}, post=post,
         closed_cases=THOROUGH_CLOSED if tier == "thorough" else QUICK_CLOSED,
         real_cases=REAL + extras, gen=40 if tier == "thorough" else 10, nvar=8 if tier == "thorough" else 4,
